@@ -157,6 +157,20 @@ impl<'a> Fold<Diagnostic> for TypeResolver<'a> {
         node.recurse_fold(self)
     }
 
+    fn fold_array_declaration(
+        &mut self,
+        node: ArrayDeclaration,
+    ) -> Result<ArrayDeclaration, Diagnostic> {
+        // The type of the elements of the array
+        match &node.spec {
+            ArraySpecificationKind::Type(name) => self.check_declared_as(name, "Element type"),
+            ArraySpecificationKind::Subranges(subranges) => {
+                self.check_declared_as(&subranges.type_name, "Element type")
+            }
+        }
+        node.recurse_fold(self)
+    }
+
     fn fold_initial_value_assignment_kind(
         &mut self,
         node: InitialValueAssignmentKind,
